@@ -7,6 +7,7 @@ def prof(name, quick, thorough, **kw):
 
 L1_TRUST = ['L1 model (coq/theories/L1/Model.v): control skeleton hand-written, tied by translator facts and the correspondence replay']
 
+CORR_L2 = {'kind': 'l2', 'profiles': [prof('fut', (60, 5), (600, 10), extra=['--max-pool', '1']), prof('fut', (40, 5), (400, 10), extra=['--max-pool', '0']), prof('fut', (40, 5), (400, 10), extra=['--min-pool', '2']), prof('susp', (60, 5), (600, 10)), prof('progs:wake_sweep.progs', (0, 8), (0, 60)), prof('progs:fut_extra.progs', (0, 8), (0, 60))]}
 CORR_L1 = {'profiles': [prof('corpus', (0, 6), (0, 40)), prof('core', (40, 5), (600, 10)), prof('sync', (30, 5), (400, 10)), prof('try', (30, 5), (400, 10)), prof('pool', (40, 5), (400, 10))]}
 
 L2_TRUST = ['L2 model (coq/theories/L2/Model.v): ONE queue with futures, three runner contexts and in-flight wakes, hand-written; the pool abstracted as runners that may take a scheduled queue (hand-over justified by L1: L-quiet/C10 matching invariant); sync_background reduced to a blocking wait; tied by the generated waker/poll tables and facts and by the wake-position sweeps - no log replay for this layer yet']
@@ -14,16 +15,16 @@ L2_TRUST = ['L2 model (coq/theories/L2/Model.v): ONE queue with futures, three r
 PROPS = {
     'C01': {
         'correspondence': CORR_L1,
-        'coq': ['theories/Props/C01.vo', 'theories/Inst/C01_now.vo', 'theories/L2/PropsC01.vo', 'theories/L2/Inst.vo'],
-        'profiles': [prof('core', (60, 15), (1500, 60)), prof('sync', (40, 15), (800, 60)), prof('fut', (50, 15), (1000, 60)), prof('fsync', (30, 10), (600, 40)), prof('pipein', (20, 10), (400, 40), extra=['--max-steps', '30000']), prof('sweep:overlap_sweep.progs', (0, 2), (0, 12))],
+        'coq': ['theories/Props/C01.vo', 'theories/Inst/C01_now.vo', 'theories/L2/PropsC01.vo', 'theories/L2/Inst.vo', 'theories/Inst/Fut_now.vo', 'theories/SyncFut/PropsC08.vo', 'theories/Inst/C08_now.vo'],
+        'profiles': [prof('core', (60, 15), (1500, 60)), prof('sync', (40, 15), (800, 60)), prof('fut', (50, 15), (1000, 60)), prof('fsync', (30, 10), (600, 40)), prof('pipein', (20, 10), (400, 40), extra=['--max-steps', '30000']), prof('sweep:overlap_sweep.progs', (0, 2), (0, 12)), prof('progs:fut_extra.progs', (0, 60), (0, 1500)), prof('progs:cancel.progs', (0, 100), (0, 3000)), prof('progs:syncfut_extra.progs', (0, 20), (0, 300))],
         'monitors': ['C01'], 'liveness': False, 'panics': False,
         'trusted_base': L1_TRUST,
         'assumptions': ['L1: all programs of desync/sync/try_sync on any number of objects; L2: one queue with future-based operations, exclusive across awaits (the suspended operation stays in the runner\'s hand or at the head of the queue)'],
     },
     'C03': {
         'correspondence': CORR_L1,
-        'coq': ['theories/Props/C03.vo', 'theories/Inst/C03_now.vo', 'theories/L1h/PropsC03once.vo', 'theories/L1h/Inst.vo', 'theories/L1b/PropsLbound.vo', 'theories/L1b/Inst.vo'],
-        'profiles': [prof('pool', (80, 20), (2000, 80)), prof('core', (40, 10), (1000, 40), extra=['--min-pool', '1']), prof('fut', (50, 15), (1000, 60), extra=['--min-pool', '1'])],
+        'coq': ['theories/Props/C03.vo', 'theories/Inst/C03_now.vo', 'theories/L1h/PropsC03once.vo', 'theories/L1h/Inst.vo', 'theories/L1b/PropsLbound.vo', 'theories/L1b/Inst.vo', 'theories/Inst/Fut_now.vo'],
+        'profiles': [prof('pool', (80, 20), (2000, 80)), prof('core', (40, 10), (1000, 40), extra=['--min-pool', '1']), prof('fut', (50, 15), (1000, 60), extra=['--min-pool', '1']), prof('progs:fut_extra.progs', (0, 60), (0, 1500))],
         'monitors': ['C03'], 'liveness': True, 'panics': False,
         'trusted_base': L1_TRUST,
         'assumptions': ['L-quiet (terminal => complete) plus L-bound (every run of the L1 model is shorter than an explicit bound: no livelock) give: every maximal execution ends complete; both for layer L1 (operations that do not suspend)'],
@@ -38,30 +39,32 @@ PROPS = {
     },
     'C04': {
         'correspondence': CORR_L1,
-        'coq': ['theories/Props/C04.vo', 'theories/Inst/C04_now.vo', 'theories/L1h/PropsC04.vo', 'theories/L1h/Inst.vo', 'theories/L1b/PropsLbound.vo', 'theories/L1b/Inst.vo', 'theories/L1z/PropsC04zero.vo', 'theories/L1z/Inst.vo'],
-        'profiles': [prof('sync', (80, 20), (2000, 80)), prof('core', (40, 10), (800, 40)), prof('pool', (30, 10), (600, 40)), prof('fut', (40, 15), (800, 60), extra=['--max-pool', '1'])],
+        'coq': ['theories/Props/C04.vo', 'theories/Inst/C04_now.vo', 'theories/L1h/PropsC04.vo', 'theories/L1h/Inst.vo', 'theories/L1b/PropsLbound.vo', 'theories/L1b/Inst.vo', 'theories/L1z/PropsC04zero.vo', 'theories/L1z/Inst.vo', 'theories/Inst/Fut_now.vo', 'theories/L2/PropsC06.vo', 'theories/L2/Inst.vo'],
+        'profiles': [prof('sync', (80, 20), (2000, 80)), prof('core', (40, 10), (800, 40)), prof('pool', (30, 10), (600, 40)), prof('fut', (40, 15), (800, 60), extra=['--max-pool', '1']), prof('progs:fut_extra.progs', (0, 60), (0, 1500))],
         'monitors': ['C04'], 'liveness': True, 'panics': True,
         'trusted_base': L1_TRUST,
         'assumptions': ['C04_full (any pool maximum incl. 0) is proved for layer L1 (operations that do not suspend); sync on a queue suspended on a future is covered by L2\'s terminal theorem (pool >= 1) and by the profiles; nested sync from inside jobs is exercised by the profiles, not modelled'],
     },
     'C05': {
         'correspondence': CORR_L1,
-        'coq': ['theories/L1h/PropsC05.vo', 'theories/L1h/Inst.vo'],
-        'profiles': [prof('drop', (80, 20), (2000, 80)), prof('core', (30, 10), (600, 40)), prof('pipein', (40, 15), (600, 60), extra=['--max-steps', '30000']), prof('pipedrop', (30, 10), (400, 40), extra=['--max-steps', '30000']), prof('sweep:drop_sweep.progs', (0, 2), (0, 12), extra=['--max-steps', '30000'])],
+        'coq': ['theories/L1h/PropsC05.vo', 'theories/L1h/Inst.vo', 'theories/Inst/Fut_now.vo'],
+        'profiles': [prof('drop', (80, 20), (2000, 80)), prof('core', (30, 10), (600, 40)), prof('pipein', (40, 15), (600, 60), extra=['--max-steps', '30000']), prof('pipedrop', (30, 10), (400, 40), extra=['--max-steps', '30000']), prof('sweep:drop_sweep.progs', (0, 2), (0, 12), extra=['--max-steps', '30000']), prof('progs:fut_extra.progs', (0, 60), (0, 1500))],
         'monitors': ['C05'], 'liveness': True, 'panics': True,
         'trusted_base': L1_TRUST + ['drop is modelled as what the code does: a final sync whose closure frees the value (fact drop_is_sync_free)'],
         'assumptions': ['freed-exactly-once and no-use-after-free are observed by the payload monitors (drop counter, dead flag) on the real crate; the theorem gives the ordering that makes them true'],
     },
     'C06': {
-        'coq': ['theories/L2/PropsC06.vo', 'theories/L2/Inst.vo', 'theories/L2/Examples.vo'],
-        'profiles': [prof('sweep:wake_sweep.progs', (0, 3), (0, 30)), prof('fut', (60, 15), (1500, 60)), prof('susp', (30, 10), (600, 40))],
+        'correspondence': CORR_L2,
+        'coq': ['theories/L2/PropsC06.vo', 'theories/L2/Inst.vo', 'theories/L2/Examples.vo', 'theories/Inst/Fut_now.vo'],
+        'profiles': [prof('sweep:wake_sweep.progs', (0, 3), (0, 30)), prof('fut', (60, 15), (1500, 60)), prof('susp', (30, 10), (600, 40)), prof('progs:fut_extra.progs', (0, 60), (0, 1500))],
         'monitors': ['C06', 'C03', 'C07', 'C04'], 'liveness': True, 'panics': True,
         'trusted_base': L2_TRUST,
         'assumptions': ['PARTIAL: the no-lost-wake invariant (all three runner contexts, any event timing, stale wakers) and the terminal theorem with >= 1 pool runner are proved; the variant with ZERO pool runners (C06_zero_pool_full in L2/Main.v) is only stated - it is exercised by the wake sweeps with pool 0'],
     },
     'C07': {
-        'coq': ['theories/L2/PropsC07.vo', 'theories/L2/Inst.vo'],
-        'profiles': [prof('fut', (100, 20), (2500, 60)), prof('sweep:wake_sweep.progs', (0, 2), (0, 12))],
+        'correspondence': CORR_L2,
+        'coq': ['theories/L2/PropsC07.vo', 'theories/L2/Inst.vo', 'theories/Inst/Fut_now.vo'],
+        'profiles': [prof('fut', (100, 20), (2500, 60)), prof('sweep:wake_sweep.progs', (0, 2), (0, 12)), prof('progs:fut_extra.progs', (0, 60), (0, 1500))],
         'monitors': ['C07', 'C03'], 'liveness': True, 'panics': True,
         'trusted_base': L2_TRUST,
         'assumptions': ['PARTIAL: proved - a result is resolved at most once, only after the operation signalled, with its own value; no would-panic state is reachable; poll stores the task waker in the critical section in which it found the result missing and signal takes and calls it; detached/dropped operations still run (C06 terminal theorem, pool >= 1). Not proved: the global statement that every awaiting caller has finished in a terminal state (C07_complete_full, one stack-shape invariant missing); it is exercised by the future profile'],
@@ -69,8 +72,9 @@ PROPS = {
     'C08': {
         'coq': ['theories/SyncFut/PropsC08.vo', 'theories/Inst/C08_now.vo'],
         'profiles': [prof('fsync', (100, 20), (2500, 60)), prof('progs:cancel.progs', (0, 400), (0, 6000))],
+        'correspondence': {'kind': 'syncfut', 'profiles': [prof('fsync', (60, 5), (600, 10)), prof('progs:syncfut_extra.progs', (0, 10), (0, 60)), prof('progs:cancel.progs', (0, 10), (0, 60))]},
         'monitors': ['C08', 'C01', 'C02', 'C05'], 'liveness': True, 'panics': True,
-        'trusted_base': ['SyncFut model (coq/theories/SyncFut/Model.v): hand-written; the queue abstracted as one-at-a-time FIFO execution with the slot job possibly suspended (justified by C01/C02), the queue runner excluded while the polling task drains (justified by the ownership invariant); tied by translator facts and the run-time oracles'],
+        'trusted_base': ['SyncFut model (coq/theories/SyncFut/Model.v): hand-written; the queue abstracted as one-at-a-time FIFO execution with the slot job and other operations possibly suspended (justified by C01/C02), the queue runner excluded while the polling task drains (justified by the ownership invariant); tied by translator facts, by the replay of logged executions of the real crate on the extracted model (driver/syncfut/replay_syncfut.ml: every oneshot operation, result-cell section and harness marker must be an enabled model step with the same label and poll result, and the final order of observables must equal the model\'s ghost log) and by the run-time oracles'],
         'assumptions': ['terminal-state form of "releases the queue" (no termination measure); a hand-written future that still owns captures after returning Ready would release them outside the slot (Desync::future_sync wraps the job in an async block, so this cannot happen through the safe API)'],
     },
     'C09': {
@@ -114,7 +118,8 @@ PROPS = {
         'assumptions': ['"released" = poll_fn is None OR nothing references the PipeContext any more (with the drop landing on a throttled producer the input stream and closure are freed by reference counting, never by poll_fn := None; the literal reading is refuted in PropsC16.v)'],
     },
     'C13': {
-        'coq': ['theories/L2/PropsC13.vo', 'theories/L2/Inst.vo'],
+        'correspondence': CORR_L2,
+        'coq': ['theories/L2/PropsC13.vo', 'theories/L2/Inst.vo', 'theories/Inst/Fut_now.vo'],
         'profiles': [prof('susp', (100, 20), (2500, 60))],
         'monitors': ['C13', 'C02', 'C04'], 'liveness': True, 'panics': True,
         'trusted_base': L2_TRUST + ['suspend is modelled as what the code does: a future operation that signals the resumer future first and then awaits the resume event'],
@@ -122,8 +127,8 @@ PROPS = {
     },
     'C14': {
         'correspondence': CORR_L1,
-        'coq': ['theories/Props/C14.vo', 'theories/Inst/C14_now.vo'],
-        'profiles': [prof('drop', (60, 15), (1500, 60)), prof('sync', (40, 10), (800, 40)), prof('fsync', (100, 20), (1500, 60)), prof('progs:cancel.progs', (0, 400), (0, 6000)), prof('pipedrop', (30, 10), (400, 40), extra=['--max-steps', '30000'])],
+        'coq': ['theories/Props/C14.vo', 'theories/Inst/C14_now.vo', 'theories/Inst/Fut_now.vo'],
+        'profiles': [prof('drop', (60, 15), (1500, 60)), prof('sync', (40, 10), (800, 40)), prof('fsync', (100, 20), (1500, 60)), prof('progs:cancel.progs', (0, 400), (0, 6000)), prof('pipedrop', (30, 10), (400, 40), extra=['--max-steps', '30000']), prof('progs:fut_extra.progs', (0, 60), (0, 1500))],
         'monitors': ['C14', 'C05', 'C01', 'C08', 'C02'], 'liveness': False, 'panics': True,
         'trusted_base': L1_TRUST + ['memory as ghost state: the model speaks about WHEN closures, values and job storage are used, not about Rust-level aliasing or layout'],
         'assumptions': ['PARTIAL BY NATURE: proves the lifetime protocol the unsafe sites rely on (erased sync jobs never outlive their call, closures run at most once, nothing runs after the free operation); absence of undefined behaviour outside the protocol is not provable here; canary payloads (dead flag, drop counter, wrong-object check, concurrent-modification canary) are checked in every profile; no AddressSanitizer build is part of the check'],
